@@ -184,8 +184,13 @@ pub fn gen(c: &Chain, cfg: &Cfg, m: &Menu, rng: &mut Rng, kind: &str) -> Option<
         "migrate" => exec(&u, "hub", json!({"k": "migrate_unbond_wait_list", "limit": if rng.chance(1, 2) { -1 } else { 1 + rng.below(2) as i64 }}), json!([])),
         "set_legacy" => {
             let mut es = vec![];
+            // entries in the first batches and around the current one (a legacy entry may share its key with a new request)
+            let cur: basset::hub::CurrentBatchResponse = c.q("hub", &basset::hub::QueryMsg::CurrentBatch {});
+            let mut ids: Vec<u64> = vec![1, 2.min(cfg.max_batch), cur.id.min(cfg.max_batch), cur.id.saturating_sub(1).max(1).min(cfg.max_batch)];
+            ids.sort();
+            ids.dedup();
             for usr in &cfg.users {
-                for i in 1..=cfg.max_batch.min(2) {
+                for &i in &ids {
                     if rng.chance(1, 3) {
                         es.push(json!({"u": usr, "i": i, "amt": 1 + rng.below(9)}));
                     }
@@ -231,6 +236,13 @@ pub fn gen(c: &Chain, cfg: &Cfg, m: &Menu, rng: &mut Rng, kind: &str) -> Option<
             }
         }
         "auth" => return Some(crate::auth::random_call(c, cfg, rng)),
+        // a configuration update of one of the contracts by one of the owner identities, committed if accepted
+        "owner_cfg" => {
+            let (contract, k) = *rng.pick(&[("hub", "update_config"), ("hub", "update_config"), ("hub", "update_config"), ("dispatcher", "update_config"), ("reward", "update_config"),
+                                            ("registry", "update_config"), ("hub", "update_params")]);
+            let ms = crate::auth::templates(contract, k, cfg, rng);
+            exec(*rng.pick(&["owner", "owner2"]), contract, rng.pick(&ms).clone(), json!([]))
+        }
         _ => return None,
     };
     Some(ev)
